@@ -116,7 +116,7 @@ PROPS = {
         "part_engines": {"C13": "dsim", "C13d": "hsim"},
         "level": "exploration",
         "technique": "deterministic simulation with fault injection (mock nodes delay and answer each attempt per seeded script on virtual time; ties between the speculative timer and completions)",
-        "rule": "each run = 2..6 unsharded nodes, SimpleSpeculativeExecutionPolicy(max 0..4, interval 50/100/200 ms), retry policy Fallthrough (2/3) or Default, 1..8 sequential uniquely marked requests through query_unpaged, the paging iterator query_iter, execute_unpaged of a prepared statement or a batch of prepared statements (weights 3:2:2:1), idempotent (3/4) or not; for every attempt reaching a node the tape picks a completion delay on the grid 0, d/2, d, ..., 7d/2 and an outcome: success, definitive error (Invalid/Syntax/Unauthorized/AlreadyExists), ignorable error (Overloaded/Unavailable/IsBootstrapping), connection reset. Non-trivial = at least one speculative execution reached a node. Distinct = distinct (poll-sequence hash, event-log hash). Part C13d (hsim, direct driver): the real speculative_execution::execute loop driven through a wrapper on a paused current_thread runtime (one forked process per case because futures::select! breaks ties with process-global state) with up to 5 scripted fibers, each (completion delay in {0, d/2, ..., 3d}, outcome in {success, definitive error, ignorable error, plan exhausted}), max 0..4, exact virtual instants: oracles c13.too_many, c13.too_early, c13.first_real_answer (earliest real outcome, returned at that instant, ties: any tied), c13.last_error (returns the last ignorable error exactly when every started fiber has finished and none may still start), c13.hang.",
+        "rule": "each run = 2..6 unsharded nodes, SimpleSpeculativeExecutionPolicy(max 0..4, interval 50/100/200 ms), retry policy Fallthrough (2/3) or Default, 1..8 sequential uniquely marked requests through query_unpaged, the paging iterator query_iter, execute_unpaged of a prepared statement, a batch of prepared statements, or a 3-page result read through the paging iterator with page size 1 - every page request is speculated separately and the structural clauses (a)-(c) are judged per page request - (weights 3:2:2:1:2), idempotent (3/4) or not; for every attempt reaching a node the tape picks a completion delay on the grid 0, d/2, d, ..., 7d/2 and an outcome: success, definitive error (Invalid/Syntax/Unauthorized/AlreadyExists), ignorable error (Overloaded/Unavailable/IsBootstrapping), connection reset. Non-trivial = at least one speculative execution reached a node. Distinct = distinct (poll-sequence hash, event-log hash). Part C13d (hsim, direct driver): the real speculative_execution::execute loop driven through a wrapper on a paused current_thread runtime (one forked process per case because futures::select! breaks ties with process-global state) with up to 5 scripted fibers, each (completion delay in {0, d/2, ..., 3d}, outcome in {success, definitive error, ignorable error, plan exhausted}), max 0..4, exact virtual instants: oracles c13.too_many, c13.too_early, c13.first_real_answer (earliest real outcome, returned at that instant, ties: any tied), c13.last_error (returns the last ignorable error exactly when every started fiber has finished and none may still start), c13.hang.",
         "assumptions": COMMON_ASSUMPTIONS + [
             "oracles from the mock's per-attempt history: (a) a non-idempotent request never has unanswered attempts on two nodes at once (any retry policy); with Fallthrough (one attempt per execution): (b) executions <= 1 + max (1 if not idempotent), the k-th reaches a node no earlier than k x interval; (c) executions go to distinct nodes; (d) the call returns a success/definitive outcome that is the earliest one (ties within 4 ms: any of the tied), no later than 6-10 ms after it was sent and not before; (e) without any real answer it fails with an ignorable error, not before every started execution finished; (f) it returns within 120 virtual s; (g) c13.gave_up_early: it does not fail with an ignorable error while an execution that later produced a real answer was still in flight",
             "exact return instants of case (e) and exact tie handling are decided by the direct driver part (C13d), not end-to-end",
